@@ -69,3 +69,50 @@ Definition tree_show (files : list rfile) (c : gcase) :=
                   | GPacket _ _ _ => (None, None)
                   end)
   end.
+
+(* ---- C01: round trip under wire_ok / valid_obj ---- *)
+From EO Require Import Model.ValidDecl Model.WireOk Model.WfEnv.
+Fixpoint strip_bs (v : value) : value :=
+  match v with
+  | VList l => VList (map strip_bs l)
+  | VObj c f =>
+    VObj c ((fix go (l : list (string * value)) : list (string * value) :=
+               match l with
+               | [] => []
+               | (k, x) :: t => if String.eqb k "byte_size" then go t else (k, strip_bs x) :: go t
+               end) f)
+  | x => x
+  end.
+Definition top_byte_size (v : value) : option Z :=
+  match v with VObj _ f => match assoc f "byte_size"%string with Some (VInt z) => Some z | _ => None end | _ => None end.
+
+(* serialize with a fresh writer, deserialize with a fresh reader: equal field by field, everything consumed, byte_size = length *)
+Definition round_ok (E : env) (cls : string) (v : value) : bool :=
+  let '(r, d, _) := run_ser E cls v false in
+  match r with
+  | Err _ => false
+  | Ok _ =>
+    let '(rv, pos, _) := run_deser E cls d false in
+    match rv with
+    | Ok v' => value_eqb (strip_bs v') v && (pos =? zlen d) && opt_eqb Z.eqb (top_byte_size v') (Some (zlen d))
+    | Err _ => false
+    end
+  end.
+
+(* per case: (in the theorem's domain?, model round trip ok?) ; impl_ok = what the generated code did *)
+Definition c01_case (p : pkg) (c : string * value * bool) : bool * bool * bool :=
+  let '(cls, v, impl_ok) := c in
+  let E := pk_env p in
+  (wire_ok E cls && valid_obj (S (List.length E)) E cls v, round_ok E cls v, impl_ok).
+(* -> (number of cases inside the domain, indices where a case inside the domain does not round-trip in the model or in the implementation,
+       indices where model and implementation disagree about round-tripping at all) *)
+Definition tree_c01 (files : list rfile) (cases : list (string * value * bool)) : Z * list Z * list Z :=
+  match elab files with
+  | Err _ => (-1, [], [])
+  | Ok p =>
+    let rs := map (c01_case p) cases in
+    (zlen (List.filter (fun r => fst (fst r)) rs),
+     failing (fun r => negb (fst (fst r)) || (snd (fst r) && snd r)) rs 0,
+     failing (fun r => Bool.eqb (snd (fst r)) (snd r)) rs 0)
+  end.
+Definition tree_wf (files : list rfile) : bool := match elab files with Ok p => wf_pkg p | Err _ => false end.
